@@ -444,6 +444,69 @@ class ExitScenario(TunnelScenario):
             await asyncio.sleep(7)
 
 
+class ExitFaultScenario(ExitScenario):
+    """T only exits, on a host where opening an outside socket takes a while and may be refused: the exit sockets of
+    four circuits acquire their transports under these conditions -
+      1: no IPv6 on the host (the IPv4 socket exists, the IPv6 one is refused);
+      2: no descriptor left for the first (IPv4) socket;
+      3: both sockets open, the IPv6 one slowly;
+      4: enabled by a late data cell of a circuit whose owner has already sent DESTROY - the delayed removal of that
+         exit socket closes it while its second socket is still being opened (the opening job is cancelled).
+    Unload is requested at every event while the sockets of 1-3 are being opened, around the cancelled opening of 4, and
+    after the owners gave up the circuits (removals pending for exit sockets with a partial set of transports)."""
+    name = "TunnelCommunity/exit-faults"
+    dense = ()
+    dense_times = (0.07, 0.12, 2.5)
+    PLAN = {(1, 4): ("ok", 0.05), (1, 6): ("fail", 0.05),
+            (2, 4): ("fail", 0.05), (2, 6): ("ok", 0.15),
+            (3, 4): ("ok", 0.05), (3, 6): ("ok", 0.15),
+            (4, 4): ("ok", 0.05), (4, 6): ("ok", 0.2)}
+
+    async def script(self, w):
+        p1, p2 = w.peers
+        w.rec.open_plan = dict(self.PLAN)
+        for _ in range(2):
+            w.introduce(pairs={(0, 1), (0, 2)})
+            await asyncio.sleep(1)
+        me = w.peer_obj(w.T)
+        cs = [w.call(p.overlay.create_circuit, 1, required_exit=me) for p in (p1, p2, p1, p2)]
+        await asyncio.sleep(2)
+        owners = list(zip((p1, p2, p1, p2), cs, ("1.2.3.4", "1.2.3.5", "1.2.3.6", "1.2.3.7")))
+
+        def send(p, c, dst):
+            if c is not None and c.hop is not None:
+                w.call(p.overlay.send_data, c.hop.address, c.circuit_id, (dst, 5000), ("0.0.0.0", 0), BT_QUERY)
+
+        def outside_replies():
+            for tr in list(w.rec.socks):
+                if not tr.closed:
+                    w.rec.log("SockIn", w.rec.socks[tr])
+                    tr.inject(BT_REPLY, ("1.2.3.4", 5000))
+        # exit sockets 1-3 are enabled and open their transports side by side
+        w.mark()
+        for p, c, dst in owners[:3]:
+            send(p, c, dst)
+        await asyncio.sleep(1)
+        for p, c, dst in owners[:3]:
+            send(p, c, dst)                  # what was queued / what goes out through a partial set of transports
+        outside_replies()
+        await asyncio.sleep(1)
+        # the owner of circuit 4 gives it up; just before T removes the exit socket a last data cell enables it
+        p, c, dst = owners[3]
+        w.call(p.overlay.remove_circuit, c.circuit_id if c is not None else 0, "script", destroy=True)
+        await asyncio.sleep(4.92)
+        w.mark()
+        send(p, c, dst)
+        await asyncio.sleep(1)
+        outside_replies()
+        await asyncio.sleep(1)
+        # the other owners give up as well: removals pending for exit sockets of which one has a single transport
+        w.mark()
+        for p, c, _dst in owners[:3]:
+            w.call(p.overlay.remove_circuit, c.circuit_id if c is not None else 0, "script", destroy=True)
+        await asyncio.sleep(7)
+
+
 class HiddenTunnelScenario(TunnelScenario):
     name = "HiddenTunnelCommunity"
 
@@ -542,7 +605,7 @@ class AttestationScenario(Scenario):
 
 
 SCENARIOS = [PlainScenario(), BootScenario(), DiscoveryScenario(), DHTScenario(), DHTDiscoveryScenario(), TunnelScenario(),
-             ExitScenario(),
+             ExitScenario(), ExitFaultScenario(),
              HiddenTunnelScenario(), PexScenario(), IdentityScenario(), AttestationScenario()]
 
 
